@@ -9,6 +9,7 @@ use fidget_shapes as fs;
 use proptest::collection::vec;
 use proptest::prelude::*;
 use serde::{Deserialize, Serialize};
+use std::collections::HashMap;
 
 /// How a vector literal is written
 #[derive(Clone, Copy, Debug, Serialize, Deserialize, PartialEq)]
@@ -152,13 +153,57 @@ pub enum E {
     /// an array of trees where a tree is expected (coerces to a union)
     Arr(Vec<E>),
     Shape(Sh),
+    /// a named mathematical constant of the scripting engine (NAMES[k]); a
+    /// number, unless an earlier `let` of the script bound the same name
+    Name(u8),
+}
+
+/// Names the engine's resolver answers with a constant when the script has not
+/// defined them (fidget-rhai/src/constants.rs, documented there)
+pub const NAMES: [(&str, f64); 19] = [
+    ("PI", std::f64::consts::PI),
+    ("E", std::f64::consts::E),
+    ("TAU", std::f64::consts::TAU),
+    ("SQRT_2", std::f64::consts::SQRT_2),
+    ("LN_2", std::f64::consts::LN_2),
+    ("LN_10", std::f64::consts::LN_10),
+    ("LOG2_E", std::f64::consts::LOG2_E),
+    ("LOG10_E", std::f64::consts::LOG10_E),
+    ("FRAC_PI_2", std::f64::consts::FRAC_PI_2),
+    ("FRAC_PI_3", std::f64::consts::FRAC_PI_3),
+    ("FRAC_PI_4", std::f64::consts::FRAC_PI_4),
+    ("FRAC_PI_6", std::f64::consts::FRAC_PI_6),
+    ("FRAC_PI_8", std::f64::consts::FRAC_PI_8),
+    ("FRAC_1_PI", std::f64::consts::FRAC_1_PI),
+    ("FRAC_2_PI", std::f64::consts::FRAC_2_PI),
+    ("FRAC_2_SQRT_PI", std::f64::consts::FRAC_2_SQRT_PI),
+    ("PHI", 1.618033988749895_f64),
+    ("GOLDEN_RATIO", 1.618033988749895_f64),
+    ("FRAC_1_SQRT_2", std::f64::consts::FRAC_1_SQRT_2),
+];
+
+thread_local! {
+    /// names bound by the `let` statements rendered so far (x / y / z and the
+    /// NAMES), with the tree each stands for
+    static SCOPE: std::cell::RefCell<HashMap<String, Tree>> = std::cell::RefCell::new(HashMap::new());
+}
+
+fn scope_get(name: &str) -> Option<Tree> {
+    SCOPE.with(|s| s.borrow().get(name).cloned())
 }
 
 #[derive(Clone, Debug, Serialize, Deserialize)]
 pub enum Case {
     /// `lets`: bindings t0, t1, ... each may refer to earlier ones through
     /// `Ref`; the script's value is the last expression
-    Script { lets: Vec<E>, body: E },
+    /// `names[i]` selects the identifier bound by the i-th `let`: an entry of
+    /// NAMES, x / y / z (shadowing the axis), or t<i> for larger values
+    Script {
+        lets: Vec<E>,
+        body: E,
+        #[serde(default)]
+        names: Vec<u8>,
+    },
     /// a comparison on trees must be rejected
     Compare { op: u8, a: E, b: E },
 }
@@ -196,18 +241,33 @@ fn v3(v: &[i16; 3]) -> Vec3 {
 
 impl E {
     fn is_tree(&self) -> bool {
-        !matches!(self, E::Num(_) | E::Big(_))
+        !matches!(self, E::Num(_) | E::Big(_) | E::Name(_))
     }
     fn is_plain_tree(&self) -> bool {
-        !matches!(self, E::Num(_) | E::Big(_) | E::Arr(_))
+        !matches!(self, E::Num(_) | E::Big(_) | E::Arr(_) | E::Name(_))
     }
-
+    fn has_shape(&self) -> bool {
+        match self {
+            E::Shape(_) => true,
+            E::Bin { a, b, .. } => a.has_shape() || b.has_shape(),
+            E::Un { a, .. } => a.has_shape(),
+            E::Arr(v) => v.iter().any(|e| e.has_shape()),
+            _ => false,
+        }
+    }
     /// (script text, expected tree)
     fn render(&self) -> (String, Tree) {
         match self {
-            E::X => ("x".into(), Tree::x()),
-            E::Y => ("y".into(), Tree::y()),
-            E::Z => ("z".into(), Tree::z()),
+            E::X => ("x".into(), scope_get("x").unwrap_or_else(Tree::x)),
+            E::Y => ("y".into(), scope_get("y").unwrap_or_else(Tree::y)),
+            E::Z => ("z".into(), scope_get("z").unwrap_or_else(Tree::z)),
+            E::Name(k) => {
+                let (name, v) = NAMES[*k as usize % NAMES.len()];
+                (
+                    name.into(),
+                    scope_get(name).unwrap_or_else(|| Tree::constant(v as f32)),
+                )
+            }
             E::Num(k) => (lit(*k), Tree::constant(num(*k))),
             E::Big(v) => (
                 if *v < 0 { format!("({v})") } else { format!("{v}") },
@@ -703,6 +763,7 @@ fn expr(depth: u32) -> BoxedStrategy<E> {
         let b = |s: BoxedStrategy<E>| s.prop_map(Box::new);
         let numb = prop_oneof![
             12 => k8().prop_map(E::Num),
+            2 => (0u8..NAMES.len() as u8).prop_map(E::Name),
             // integers around and beyond the 32-bit range
             1 => prop_oneof![
                 Just(2147483647i64), Just(2147483648), Just(-2147483648), Just(-2147483649),
@@ -799,7 +860,9 @@ impl Prop for P {
 
     fn strategy(tier: Tier) -> BoxedStrategy<Case> {
         let d = tier.pick(5, 7);
-        let script = (vec(expr(d), 0..=4), expr(d)).prop_map(|(lets, body)| Case::Script { lets, body });
+        let let_value = prop_oneof![5 => expr(d), 1 => k8().prop_map(E::Num)];
+        let script = (vec(let_value, 0..=4), expr(d), vec(0u8..=50, 4..=4))
+            .prop_map(|(lets, body, names)| Case::Script { lets, body, names });
         let cmp = (0u8..6, expr(2), prop_oneof![expr(2), k8().prop_map(E::Num)], any::<bool>()).prop_map(
             |(op, a, b, swap)| {
                 if swap {
@@ -815,19 +878,60 @@ impl Prop for P {
     fn check(case: &Case, cx: &mut Cx) -> CheckResult {
         let engine = fidget_rhai::engine();
         match case {
-            Case::Script { lets, body } => {
+            Case::Script { lets, body, names } => {
                 // let-bound terms are joined by +, which keeps each statement's
                 // nesting below the engine's expression-depth limit
                 let mut script = String::new();
                 let mut terms: Vec<String> = vec![];
                 let mut trees: Vec<Tree> = vec![];
+                SCOPE.with(|s| s.borrow_mut().clear());
+                // x / y / z are shadowed only by trees, and only in scripts
+                // without shape constructors (their axis arguments may be
+                // written x / y / z)
+                let any_shape = body.has_shape() || lets.iter().any(|e| e.has_shape());
+                let mut shadowed = false;
+                let mut numeric: std::collections::HashSet<String> = Default::default();
                 for (i, e) in lets.iter().enumerate() {
                     let (s, t) = e.render();
-                    script += &format!("let t{i} = {s};\n");
-                    terms.push(format!("t{i}"));
-                    trees.push(t);
+                    let sel = names.get(i).copied().unwrap_or(255) as usize;
+                    let name: String = if sel < NAMES.len() {
+                        NAMES[sel].0.into()
+                    } else if sel < NAMES.len() + 3 && !any_shape && e.is_tree() {
+                        ["x", "y", "z"][sel - NAMES.len()].into()
+                    } else {
+                        format!("t{i}")
+                    };
+                    script += &format!("let {name} = {s};\n");
+                    if sel < NAMES.len() + 3 && !name.starts_with('t') {
+                        SCOPE.with(|sc| sc.borrow_mut().insert(name.clone(), t.clone()));
+                        shadowed = true;
+                        if e.is_tree() {
+                            numeric.remove(&name);
+                        } else {
+                            numeric.insert(name.clone());
+                        }
+                        cx.ev.count(if e.is_tree() { "let_shadows_name_with_tree" } else { "let_shadows_name_with_number" });
+                    }
+                    // numbers bound by a let are only used through their name
+                    if e.is_tree() {
+                        terms.push(name);
+                        trees.push(t);
+                    }
                 }
+                // a name bound more than once stands for its last binding
+                for (term, tree) in terms.iter().zip(trees.iter_mut()) {
+                    if let Some(t) = scope_get(term) {
+                        *tree = t;
+                    }
+                }
+                // ... and is left out of the final sum if that is a number
+                let keep: Vec<bool> = terms.iter().map(|t| !numeric.contains(t)).collect();
+                let mut it = keep.iter();
+                terms.retain(|_| *it.next().unwrap());
+                let mut it = keep.iter();
+                trees.retain(|_| *it.next().unwrap());
                 let (s, t) = body.render();
+                let _ = shadowed;
                 terms.push(s);
                 trees.push(t);
                 let mut last = terms[0].clone();
